@@ -2,16 +2,8 @@
 From Rosmar Require Import Base Json Crc Hlc Kv Store Trace KvTac KvRowOk KvLift KvFrame.
 
 (* sorting the index rows for a query neither drops nor invents rows *)
-Lemma insert_vrow_In d l x : In x (insert_vrow d l) <-> x = d \/ In x l.
-Proof. induction l as [|d' r IH]; cbn; [intuition|]. destruct (vrow_lt d d'); cbn; rewrite ?IH; intuition. Qed.
-
 Theorem C12_sort_keeps_rows : forall l x, In x (sort_vrows l) <-> In x l.
-Proof.
-  intros l x. unfold sort_vrows.
-  assert (forall acc, In x (fold_left (fun a d => insert_vrow d a) l acc) <-> In x l \/ In x acc) as H.
-  { induction l as [|d r IH]; intros acc; cbn [fold_left]; [cbn; intuition|]. rewrite IH, insert_vrow_In. cbn. intuition. }
-  rewrite H. cbn. intuition.
-Qed.
+Proof. exact sort_vrows_In. Qed.
 Print Assumptions C12_sort_keeps_rows.
 
 (* the structural invariants views rely on (unique documents per collection and key) hold in every reachable store *)
